@@ -15,3 +15,20 @@ Definition parse_obs (files : list text) (args : list text) :=
   | Panic s => Panic s
   | OutOfFuel => OutOfFuel
   end.
+
+From Vicut Require Import Model.Format.
+
+Definition fmt_of (k : N) (arg : text) : fmt :=
+  if k =? 0 then FJson else if k =? 1 then FTemplate arg else FStandard arg.
+Definition fmt_obs (c : N * text * list record) : outcome text :=
+  let '(k, arg, recs) := c in format_output (fmt_of k arg) recs.
+
+(** record assembly from per-command results: [(kind, name, result)] with kind
+    0 = cut, 1 = named cut, 2 = -n; then the end of [execute]. *)
+Definition assemble_obs (c : list (N * text * option text) * (bool * bool * bool * text)) : list record :=
+  let '(steps, (silent, print_buffer, trim, buffer)) := c in
+  ctx_finish silent print_buffer trim buffer
+    (fold_left (fun cx st => let '(k, nm, res) := st in
+                             if k =? 2 then ctx_break cx
+                             else ctx_field (if k =? 1 then Some nm else None) res cx)
+               steps ctx0).
